@@ -287,7 +287,78 @@ def r6_exclusive_alloc(ctx):
                   b.loc(), sample={"method": b.id, "receiver": t})
 
 
+def r7_stale_write_back(ctx):
+    """read-copy-update without compare: a value looked up (and cloned) from the map under one guard / lock section and inserted
+    back under another overwrites whatever a concurrent put or remove did in between"""
+    rule = "C11.R7"
+    ctx.rule(rule, "no map insert whose value derives from an earlier look at the same map whose guard / lock section has ended "
+                   "(write-back of a snapshot): in-place updates go through get_mut / entry under one guard")
+    n = 0
+    for name, c in CACHE_FILES.items():
+        for b in bodies_of(ctx, c):
+            ins = [m for m in map_ops(b, c["map"]) if m.op == "insert"]
+            if not ins:
+                continue
+            ctx.saw(b)
+            at, births = held_analysis(b)
+            looks = [x for x in b.calls if x.bb in b.live_blocks() and LOOK.search(x.name) and on_field(recv_fields(b, x), c["map"])]
+            for m in ins:
+                n += 1
+                ctx.call_sites += 1
+                r = m.call
+                val = r.args[2] if len(r.args) > 2 else None
+                stale = []
+                if val is not None and op_local(val) is not None:
+                    sl = Slice(b, [op_local(val)], transparent=True)
+                    for lk in looks:
+                        if lk.dest[0] in sl.locals and lk.bb != r.bb:
+                            held_r = at.get(r.bb, frozenset())
+                            held_l = at.get(lk.bb, frozenset())
+                            same_section = any(h in held_l for h in held_r if h.lock[1] == c["map"])
+                            if not same_section:
+                                stale.append(lk)
+                ctx.check(not stale, rule, [b.id, "snapshot-write-back"], "inserted value does not come from a released look at the same map",
+                          "%s inserts into `%s` a value it read from the same map earlier (at %s) after that guard / lock section ended: a put_with_ttl or "
+                          "remove that completed in between is overwritten by the old snapshot (resurrected entry, wrong TTL, usage counters off)" %
+                          (ctx._stable(b.id), c["map"], stale[0].loc() if stale else ""), r.loc(), sample={"insert": r.loc(), "looks": [x.loc() for x in looks][:3]})
+    ctx.floor(rule, n, 2, "map inserts in memory_cache.rs / disk_cache.rs")
+
+
+PATH_STAT = re.compile(r"^std::fs::(metadata|symlink_metadata)$|^tokio::fs::(metadata|symlink_metadata)::\w+$|^std::path::Path::(metadata|symlink_metadata)$|^std::fs::DirEntry::metadata$")
+EXACT_READ = re.compile(r"\bRead>?::read_exact$|AsyncReadExt>?::read_exact$|FileExt>?::read_exact_at$")
+
+
+def r8_size_from_handle(ctx):
+    """a file that other tasks replace by rename is read through ONE lookup of its name: the length that sizes an exact read comes
+    from the open handle (File::metadata), never from a second, path-based stat - between the two lookups a rename can put a
+    different file under the name"""
+    rule = "C11.R8"
+    ctx.rule(rule, "no read_exact whose buffer length derives from a path-based metadata() call (stat by name, then open by name)")
+    n = 0
+    for b in ctx.prog.bodies.values():
+        if b.krate not in ("cascette_cache", "cascette_client_storage"):
+            continue
+        for c in b.calls:
+            if c.bb not in b.live_blocks() or not (EXACT_READ.search(c.name) or EXACT_READ.search(c.orig_name or "")):
+                continue
+            if len(c.args) < 2 or op_local(c.args[1]) is None:
+                continue
+            n += 1
+            ctx.call_sites += 1
+            sl = Slice(b, [op_local(c.args[1])], transparent=True)
+            stats = [x for x in sl.calls if PATH_STAT.search(x.name)]
+            if stats:
+                ctx.saw(b)
+            ctx.check(not stats, rule, [b.id, "exact-read-sized-by-path-stat"], "exact read is not sized by a stat of the path",
+                      "%s sizes a read_exact buffer from %s (a stat by path) and opens the file by path separately: when a concurrent put renames a new file "
+                      "over the name in between, the reader gets the old length with the new contents - a torn value or a spurious UnexpectedEof that "
+                      "drops a valid entry" % (ctx._stable(b.id), stats[0].name if stats else ""), c.loc())
+    ctx.floor(rule, n, 6, "read_exact call sites in cascette-cache / cascette-client-storage")
+
+
 def run(ctx):
+    r8_size_from_handle(ctx)
+    r7_stale_write_back(ctx)
     r1_r2(ctx)
     r3_temp_names(ctx)
     r4_lock_discipline(ctx)
